@@ -89,10 +89,19 @@ def main():
     if len(sys.argv) > 2 and sys.argv[2] == "--controls":
         sys.exit(controls(prop))
     t0 = time.time()
+    # the scratch analyses compile the changed packages; they get a build cache of their own that is removed at the
+    # end, so that validating hundreds of variants does not fill the disk (dependencies are compiled once, ~15 s)
+    gocache = tempfile.mkdtemp(prefix="hl-gocache-", dir=os.environ.get("TMPDIR", "/tmp"))
+    V.ENV["GOCACHE"] = gocache
+    import atexit
+    atexit.register(lambda: shutil.rmtree(gocache, ignore_errors=True))
     vs = [v for v in V.load_corpus() if v["prop"] == prop]
     results = []
+    if vs:
+        results = [V.run_variant(vs[0], False, False)]  # fills the cache before the parallel runs start
+        vs = vs[1:]
     with concurrent.futures.ThreadPoolExecutor(max_workers=8) as ex:
-        results = list(ex.map(lambda v: V.run_variant(v, False, False), vs))
+        results += list(ex.map(lambda v: V.run_variant(v, False, False), vs))
     seeded = []
     metas = [m for m in sorted(glob.glob(os.path.join(VERIF, "seeded", "*", "meta.json"))) if prop in json.load(open(m)).get("properties", [])]
     with concurrent.futures.ThreadPoolExecutor(max_workers=8) as ex:
